@@ -129,6 +129,8 @@ namespace awkward {
     if (verbose  ||
         toplevel  ||
         p.empty()  ||
+        dtype_ == util::dtype::datetime64  ||
+        dtype_ == util::dtype::timedelta64  ||
         !inner_shape_.empty() ||
         has_identities_  ||
         !parameters_.empty()  ||
